@@ -52,8 +52,11 @@ type World struct {
 	Gate    func(thread, label string) // optional scheduler gate, called before a data store
 	fresh   map[string]*freshMeta
 	// OnStore is called (under the world lock) after every logged store, with its index in Log
-	OnStore  func(k int)
-	Suppress int // >0: do not emit trace events (still log stores)
+	OnStore func(k int)
+	// FailAcquire, when set, makes the acquisition of a page that does not exist yet fail (fault injection:
+	// open / truncate / mmap of a new page file failed); called with the kind of the factory and the page index
+	FailAcquire func(kind string, index int64) error
+	Suppress    int // >0: do not emit trace events (still log stores)
 }
 
 type freshMeta struct {
@@ -189,6 +192,13 @@ func (f *factory) AcquirePage(index int64) (page.MappedPage, error) {
 	f.mu.Lock()
 	defer f.mu.Unlock()
 	existed := f.known[index]
+	if fa := f.w.FailAcquire; !existed && fa != nil {
+		if _, ok := f.inner.GetPage(index); !ok {
+			if err := fa(f.kind, index); err != nil {
+				return nil, err
+			}
+		}
+	}
 	p, err := f.inner.AcquirePage(index)
 	if err != nil {
 		return nil, err
